@@ -541,10 +541,8 @@ class C06(Check):
                 else:
                     out.append((t, v))
             return out
-        if prefs['spacer'] == '' and n9(a) != a and n9(a) == n9(b):
-            ctx.violate('layout preferences change the token sequence', wit,
-                        self.first_diff(a, b), known='C06-op-equals-fusion')
-        elif n3(a) == n3(b):
+        # (the region of the former finding C06-op-equals-fusion is gone: fixed by 77b59e6)
+        if n3(a) == n3(b):
             ctx.violate('layout preferences change a non-whitespace token', wit,
                         self.first_diff(a, b), known='C06-indent-inside-token')
         elif prefs['selectorCombinatorSpacer'] == '' and n4(a) == n4(b):
@@ -614,8 +612,6 @@ class C06(Check):
             return x
         # the normalisations whose region predicate holds for this case, applied to both sides
         norms = [('C06-indent-inside-token', n3)]
-        if prefs['spacer'] == '':
-            norms.append(('C06-op-equals-fusion', n9))
         if prefs['selectorCombinatorSpacer'] == '':
             norms.append(('C06-nth-plus-fusion', n4))
 
@@ -875,7 +871,7 @@ class C06(Check):
             bad = im.with_prefs(prefs, go)
             ctx.case(key=('pairs', repr(sorted(d.items()))), nontrivial=True, kind='lexeme-pairs')
             for a, b, t in bad:
-                region = prefs['spacer'] == '' and a[0] in ('*', '|', '^', '$') and a[1] == 'CHAR' and b == ('=', 'CHAR')
+                region = False      # former finding C06-op-equals-fusion: fixed by 77b59e6, no region left
                 ctx.violate('two adjacent lexemes are written as another token', {'script': [['s', a[0], a[1], [True, False, False, False]], ['s', b[0], b[1], [True, False, False, False]]], 'prefs': d},
                             {'text': t}, known='C06-op-equals-fusion' if region else None)
 
